@@ -598,7 +598,11 @@ fn record_to_proto(record: Record) -> proto::Record {
             .map(|t| {
                 let now = Instant::now();
                 if t > now {
-                    (t - now).as_secs() as u32
+                    // Never 0 ("does not expire"): sub-second lifetimes round up to 1
+                    // and lifetimes beyond `u32::MAX` seconds saturate.
+                    u32::try_from((t - now).as_secs())
+                        .unwrap_or(u32::MAX)
+                        .max(1)
                 } else {
                     1 // because 0 means "does not expire"
                 }
